@@ -1,4 +1,155 @@
-import ZtypV.Spec
+/-
+C15 — Type size bounds and fixed-size flags are sound.
+
+Model side: `ZtypV.Sizes.sizeInfo` / `typeSizes` (Model/Sizes.lean) — the Go type constructors
+`UintMeta … UnionType` of package `view`, function by function, in wrapping `UInt64` arithmetic;
+this is the function the driver op `sizes` executes (Driver/OpsSizes.lean).
+Spec side: `Ty.isFixed`, `Ty.typeByteLength`, `Ty.minSize`, `Ty.maxSize`, `hasType`, `serialize`
+(Spec.lean).
+
+Result.  The property holds for every well-formed type whose maximum encoded size is below 2^64
+PROVIDED every bit length inside leaves room for the constructors' rounding addition
+(`Bitvector[N]`: N + 7 < 2^64, `Bitlist[N]`: N + 8 < 2^64; `Sizes.bitLensOk`) — `C15_eq`.
+Without that proviso the statement as written (`C15_eq_full`) is FALSE: `C15_eq_full_false`
+(witness `Bitlist[2^64-1]`: spec maximum 2^61 bytes, constructor reports min 1 > max 0), with the
+exact wrapped values in `C15_bitlist_wrap` / `C15_bitvector_wrap`.  All lengths and limits of the
+property's quantifier (≤ 2^40) satisfy the proviso.
+-/
+import ZtypV.Proofs.Sizes
 namespace ZtypV.Props.C15
-theorem placeholder : True := trivial
+open ZtypV ZtypV.Sizes
+
+/-- the property exactly as worded (no proviso on bit lengths): constructors = spec for every
+    well-formed type with maximum size below 2^64 -/
+def C15_eq_full : Prop :=
+  ∀ t : Ty, t.wf = true → t.maxSize < 2 ^ 64 →
+    typeSizes t = some ⟨t.isFixed, UInt64.ofNat t.typeByteLength, UInt64.ofNat t.minSize,
+      UInt64.ofNat t.maxSize⟩
+
+/-- **C15 (model = spec).**  For every well-formed type with maximum encoded size below 2^64 and
+    non-wrapping bit-length rounding, constructing the type does not panic and the constructors'
+    fixed-size flag, `TypeByteLength`, `MinByteLength`, `MaxByteLength` (read as natural numbers)
+    are exactly the spec's. -/
+theorem C15_eq (t : Ty) (hwf : t.wf = true) (hmax : t.maxSize < 2 ^ 64) (hbits : bitLensOk t = true) :
+    typeSizes t = some (sizeInfo t) ∧
+    (sizeInfo t).isFixed = t.isFixed ∧
+    (sizeInfo t).size.toNat = t.typeByteLength ∧
+    (sizeInfo t).min.toNat = t.minSize ∧
+    (sizeInfo t).max.toNat = t.maxSize := by
+  have hmin : t.minSize < 2 ^ 64 := Nat.lt_of_le_of_lt (min_le_max t) hmax
+  have hsz : t.typeByteLength < 2 ^ 64 := by
+    unfold Ty.typeByteLength
+    split
+    · next hf => rw [← (fixed_min_max t hf).2]; exact hmax
+    · exact Nat.pos_of_ne_zero (by decide)
+  rw [typeSizes, wf_not_panics t hwf, sizeInfo_eq t hwf hmax hbits]
+  exact ⟨rfl, rfl, toNat_ofNat_lt hsz, toNat_ofNat_lt hmin, toNat_ofNat_lt hmax⟩
+
+/-- `exTy` = Container{uint64, List[Bitlist[9], 3], Union[None, Vector[boolean, 3]],
+    Vector[List[uint16, 2^40], 2]} (Proofs/Sizes.lean) -/
+example : exTy.wf = true ∧ exTy.maxSize < 2 ^ 64 ∧ bitLensOk exTy = true := by decide
+
+/-- the same as an equation between records (the form the driver compares) -/
+theorem C15_eq_record (t : Ty) (hwf : t.wf = true) (hmax : t.maxSize < 2 ^ 64) (hbits : bitLensOk t = true) :
+    typeSizes t = some ⟨t.isFixed, UInt64.ofNat t.typeByteLength, UInt64.ofNat t.minSize,
+      UInt64.ofNat t.maxSize⟩ := by
+  rw [typeSizes, wf_not_panics t hwf, sizeInfo_eq t hwf hmax hbits]
+  rfl
+
+/-- exact behaviour of `BitListType(limit)` when `limit + 7 + 1` wraps: min 1, max 0 -/
+theorem C15_bitlist_wrap (lim : Nat) (h1 : 2 ^ 64 ≤ lim + 8) (h2 : lim < 2 ^ 64) :
+    sizeInfo (.bitlist lim) = ⟨false, 0, 1, 0⟩ ∧ (Ty.bitlist lim).maxSize = lim / 8 + 1 := by
+  refine ⟨?_, rfl⟩
+  have e : (UInt64.ofNat lim + 7 + 1) / 8 = 0 := by
+    apply UInt64.toNat.inj
+    have h7 : (7 : UInt64).toNat = 7 := rfl
+    have h8 : (8 : UInt64).toNat = 8 := rfl
+    have h1' : (1 : UInt64).toNat = 1 := rfl
+    have h0 : (0 : UInt64).toNat = 0 := rfl
+    rw [UInt64.toNat_div, UInt64.toNat_add, UInt64.toNat_add, toNat_ofNat_lt h2, h7, h8, h1', h0]
+    omega
+  simp only [sizeInfo, bitListType, e]
+
+example : 2 ^ 64 ≤ (2 ^ 64 - 1) + 8 ∧ 2 ^ 64 - 1 < 2 ^ 64 := by decide
+
+/-- exact behaviour of `BitVectorType(length)` when `length + 7` wraps: all lengths 0 -/
+theorem C15_bitvector_wrap (n : Nat) (h1 : 2 ^ 64 ≤ n + 7) (h2 : n < 2 ^ 64) :
+    sizeInfo (.bitvector n) = ⟨true, 0, 0, 0⟩ ∧ (Ty.bitvector n).maxSize = (n + 7) / 8 := by
+  refine ⟨?_, rfl⟩
+  have e : (UInt64.ofNat n + 7) / 8 = 0 := by
+    apply UInt64.toNat.inj
+    have h7 : (7 : UInt64).toNat = 7 := rfl
+    have h8 : (8 : UInt64).toNat = 8 := rfl
+    have h0 : (0 : UInt64).toNat = 0 := rfl
+    rw [UInt64.toNat_div, UInt64.toNat_add, toNat_ofNat_lt h2, h7, h8, h0]
+    omega
+  simp only [sizeInfo, bitVectorType, e]
+
+example : 2 ^ 64 ≤ (2 ^ 64 - 7) + 7 ∧ 2 ^ 64 - 7 < 2 ^ 64 := by decide
+
+/-- **The property as worded fails at the 64-bit boundary of bit lengths.**  `Bitlist[2^64-1]` is
+    well-formed, its maximum encoding has 2^61 < 2^64 bytes, yet `BitListType` reports
+    `MaxByteLength = 0 < MinByteLength = 1` (so `checkScope` rejects every encoding). -/
+theorem C15_eq_full_false : ¬ C15_eq_full := by
+  intro h
+  have h1 := h (.bitlist (2 ^ 64 - 1)) rfl (by decide)
+  have h2 := (C15_bitlist_wrap (2 ^ 64 - 1) (by decide) (by decide)).1
+  rw [typeSizes, wf_not_panics _ rfl, h2] at h1
+  revert h1
+  decide
+
+/-- **C15 (sound bounds).**  The encoding of every value of the type lies within the spec bounds. -/
+theorem C15_sound (t : Ty) (v : Val) (hv : hasType t v = true) :
+    t.minSize ≤ (serialize t v).length ∧ (serialize t v).length ≤ t.maxSize :=
+  ser_bounds t v hv
+
+example : hasType exTy (.seq [.num 7, .seq [.bits [true, false]], .union 1 (.seq [.bool true, .bool false, .bool true]),
+    .seq [.seq [.num 1], .seq []]]) = true := by decide
+
+/-- **C15 (fixed size).**  Every value of a fixed-size type is encoded in exactly `fixedSize` bytes. -/
+theorem C15_fixed (t : Ty) (v : Val) (hf : t.isFixed = true) (hv : hasType t v = true) :
+    (serialize t v).length = t.fixedSize := by
+  have h := ser_bounds t v hv
+  have e := fixed_min_max t hf
+  omega
+
+example : (Ty.vector (.container [.uint 4, .bitvector 9]) 3).isFixed = true ∧
+    hasType (Ty.vector (.container [.uint 4, .bitvector 9]) 3)
+      (.seq (List.replicate 3 (.seq [.num 5, .bits (List.replicate 9 true)]))) = true := by decide
+
+/-- **C15 (no valid encoding rejected for its size / encodings within the reported bounds).**
+    Within the constructors' reported `[MinByteLength, MaxByteLength]` lies the encoding of every
+    value. -/
+theorem C15_reported_bounds (t : Ty) (v : Val) (hwf : t.wf = true) (hmax : t.maxSize < 2 ^ 64)
+    (hbits : bitLensOk t = true) (hv : hasType t v = true) :
+    (sizeInfo t).min.toNat ≤ (serialize t v).length ∧
+    (serialize t v).length ≤ (sizeInfo t).max.toNat := by
+  obtain ⟨_, _, _, h3, h4⟩ := C15_eq t hwf hmax hbits
+  rw [h3, h4]
+  exact ser_bounds t v hv
+
+example : exTy.wf = true ∧ exTy.maxSize < 2 ^ 64 ∧ bitLensOk exTy = true ∧
+    hasType exTy (.seq [.num 7, .seq [.bits [true, false]], .union 0 .none, .seq [.seq [], .seq [.num 9]]]) = true := by
+  decide
+
+/-- **C15 (tight minimum).**  Some value is encoded in exactly `minSize` bytes. -/
+theorem C15_tight_min (t : Ty) (hwf : t.wf = true) :
+    ∃ v, hasType t v = true ∧ (serialize t v).length = t.minSize :=
+  tight_min t hwf
+
+/-- **C15 (tight maximum).**  Some value is encoded in exactly `maxSize` bytes. -/
+theorem C15_tight_max (t : Ty) (hwf : t.wf = true) :
+    ∃ v, hasType t v = true ∧ (serialize t v).length = t.maxSize :=
+  tight_max t hwf
+
+example : exTy.minSize = 29 ∧ exTy.maxSize = 4398046511154 := by decide
+
+/-- sub-results never exceed the bound of the whole type (why `maxSize t < 2^64` suffices) -/
+theorem C15_min_le_max (t : Ty) : t.minSize ≤ t.maxSize := min_le_max t
+
+/-- a zero-limit list hides an overflowing element: the constructors still agree with the spec
+    although the element's own maximum (2^40 · 2^40 bytes) wraps -/
+example : typeSizes (.list (.list (.list (.uint 8) (2 ^ 40)) (2 ^ 40)) 0) = some ⟨false, 0, 0, 0⟩ := by
+  decide
+
 end ZtypV.Props.C15
